@@ -26,6 +26,10 @@ def put {κ ν} [BEq κ] (m : Store κ ν) (k : κ) (v : ν) : Store κ ν := (k
 /-- what an iterator over the store yields: the entries `get` sees (an association list may carry shadowed entries; a KV
 store iterator yields every key once with its current value) -/
 def visible {κ ν} [BEq κ] [BEq ν] (m : Store κ ν) : Store κ ν := m.filter (fun p => get m p.1 == some p.2)
+/-- `Set` under a key that is present: a KV store has one slot per key, the value is replaced where it stands (used for
+the time-queue slices, whose iteration order the end blocker follows) -/
+def setAt {κ ν} [BEq κ] (m : Store κ ν) (k : κ) (v : ν) : Store κ ν :=
+  if m.any (fun p => p.1 == k) then m.map (fun p => if p.1 == k then (p.1, v) else p) else (k, v) :: m
 def ins {κ} [BEq κ] (s : List κ) (k : κ) : List κ := if s.contains k then s else k :: s
 def rem {κ} [BEq κ] (s : List κ) (k : κ) : List κ := s.filter (fun x => !(x == k))
 
@@ -370,7 +374,7 @@ def moveUbd (c : Cfg) (frm to : Addr) (s : State) (p : (Addr × Val) × List (Ti
   let s1 := { s with ubds := put (del s.ubds (frm, v)) (to, v) p.2, ubdIdx := ins (rem s.ubdIdx (v, frm)) (v, to) }
   p.2.foldl (fun s e =>
       let slice := (get s.ubdQ e.1).getD []
-      let q := if slice.any (fun x => x.1 == frm) then put s.ubdQ e.1 (slice.map (renPair frm to)) else s.ubdQ
+      let q := if slice.any (fun x => x.1 == frm) then setAt s.ubdQ e.1 (slice.map (renPair frm to)) else s.ubdQ
       { s with ubdQ := q, unbId := if c.rewriteUnbId then put s.unbId e.2.2 (to, v, none) else s.unbId }) s1
 
 /-- one redelegation of `from` (`redelegateIterator` loop body) -/
@@ -382,7 +386,7 @@ def moveRed (c : Cfg) (frm to : Addr) (s : State) (p : (Addr × Val × Val) × L
                      redDstIdx := ins (rem s.redDstIdx (dst, frm, src)) (dst, to, src) }
   p.2.foldl (fun s e =>
       let slice := (get s.redQ e.1).getD []
-      let q := if slice.any (fun x => x.1 == frm) then put s.redQ e.1 (slice.map (renTriple frm to)) else s.redQ
+      let q := if slice.any (fun x => x.1 == frm) then setAt s.redQ e.1 (slice.map (renTriple frm to)) else s.redQ
       { s with redQ := q, unbId := if c.rewriteUnbId then put s.unbId e.2.2 (to, src, some dst) else s.unbId }) s1
 
 /-- `DistrStakingMigrate.Execute` -/
